@@ -39,7 +39,15 @@ PLAN = dict(
          "accept-set: refused (error, no key) or exactly the reference key and confirmations for the scalar that call sampled; and what earlier "
          "calls returned is used again with the kept object after every failed / refused call and at the end (generated keys re-read, signatures "
          "checked with the library's verifier under the key object, ciphertexts decrypted with it): the answer must be the one given when the "
-         "call returned. clause 2 (c12.faults, c12.eof): one case = (entry point, number of rejected blocks first, Read index k, fault kind) resp. "
+         "call returned. c12.runs (length of a run of consecutive rejected blocks): one case = (operation of the catalogue; every entry point variant "
+         "and every fill at least once per operation and run length, thorough: the product) x (m in 1, 2, 3, 7, 8, 15, 16, 17, 31, 32, 33, 63, 64, 65, "
+         "100, 255, 256, 257, 1000 leading out-of-range blocks) x (fill: value 0 [for the key generators the raw block that is 0 after the XOR], n, "
+         "2^256-1, n-1 where excluded / n+1, uniform values >= n different in every block, a mixture; thorough also n+1 and the raw block ff..ff) "
+         "followed by (a) ONE in-range block: no error, scalar = that block, exactly 32(m+1) bytes (+ IV) consumed, Read log = m+1 full 32-byte reads "
+         "at offsets 0, 32, ... (+ the IV), or (b) a source that fails at read m in one of the five ways or ends 0 / 1 / 16 / 31 bytes into block m "
+         "(quick: one of the nine, rotating; thorough: all): read m must have been made, then error, no output, no panic. Products: run + nonce the "
+         "algorithm has to discard (families of c12.retryfaults) + run + in-range block / failing source; two calls of an operation on ONE source, "
+         "each behind its own run. clause 2 (c12.faults, c12.eof): one case = (entry point, number of rejected blocks first, Read index k, fault kind) resp. "
          "(entry point, rejected blocks, stream length L). distinct = distinct class keys (operation/variant/rejected-count/accepted-value class; "
          "operation/skipped-value class; operation/variant/rejected/kind/k; .../eof@L; hist/object/pattern and hist/object/call>call with their modes)",
     jobs=both("c12.fidelity", ["avx2", "noadx", "avx", "purego", "ia32"], shards=(4, 12), floor=1000)
@@ -48,6 +56,7 @@ PLAN = dict(
     + both("c12.eof", ["avx2", "purego"], shards=(1, 4), floor=500)
     + both("c12.reentrant", ["avx2", "purego"], shards=(2, 8), floor=500)
     + both("c12.retryfaults", ["avx2", "purego"], shards=(1, 4), floor=1000)
+    + both("c12.runs", ["avx2", "purego", "ia32"], shards=(2, 8), floor=1000)
     + both("c12.history", ["avx2", "purego"], shards=(2, 8), floor=300)
     + [J("c12.history", ["ia32"], "ia32", shards=(4, 8), floor=300)],
     exhaustive_note="fault enumeration is exhaustive over (entry point x rejected-blocks-first j in 0..2 (thorough 0..4) x Read index k in 0..R+1 x "
@@ -83,6 +92,10 @@ CLAIM = dict(
          "failed in every enumerated way: the object may refuse, otherwise key and confirmations are exactly those of the scalar the healthy call "
          "sampled (nothing derived from 0, a rejected block or bytes of the failed call); earlier generated keys, signatures and ciphertexts keep "
          "giving the same answer with the kept object after failed calls. "
+         "Rejection sampling is followed over runs of 1..1000 consecutive out-of-range blocks (lengths around every power of two up to 256, every "
+         "kind of out-of-range value) for every operation: the scalar is the block behind the run, the Read log shows one full read per block and "
+         "nothing else, and a source that fails or ends behind the run gives an error and no output - no sampler gives up, falls through or reduces "
+         "after a bounded number of rejections. "
          "The peer's point of a key-exchange step may name any curve (or none) in its Curve field and SM9 key objects may come from any decoder: "
          "the draw follows the rule of the object's own algorithm. Forced algorithm-level retries are combined with every later fault position and "
          "kind: nothing the discarded attempt computed comes back with the error. Every Read position of every operation is failed in five ways, and every premature end of stream by byte "
